@@ -559,6 +559,14 @@ def observe(args):
                 im.pb.start_time = t0
         out['delta'] = delta_us
         out['t0'] = us(t0)
+        if extra is None and idx % 3 == 1 and sum(1 for o in prog if o[0] == 'ONewObjective') < 2:
+            # (with two objectives the solver itself creates an indicator and an objective at initialisation, and those attach to
+            # the most recent problem -- the library's "active problem" convention; observed, outside C11: see DESIGN 12.3)
+            # another problem, with another calendar, is created after this one and before it is solved (several plans built
+            # first and solved afterwards): the solution of a problem is computed from that problem
+            ps.SchedulingProblem(name='Decoy', horizon=3, start_time=datetime.datetime(2031, 5, 17, 3, 0, 0),
+                                 delta_time=datetime.timedelta(hours=7))
+            out['decoy_problem'] = True
         has_obj = any(o[0] == 'ONewObjective' for o in prog)
         kw = dict(max_time=10)
         if has_obj:
@@ -678,6 +686,53 @@ def kernel_solutions(ctx, cases, fn='solution_of'):
             continue
         reps.append([l for l in modelrun.coq_string_lines(ch) if l != 'CASE'])
     return reps
+
+
+NO_ARRAY_LOGICS = ['QF_UFLIA', 'QF_UFIDL', 'QF_LIA', 'QF_IDL', 'QF_LRA', 'QF_UFLRA']
+
+
+def early_solver_validity(args):
+    """a solver object created (with an SMT logic) before the rest of the problem is declared, then used: the schedule it returns
+    satisfies the assertion set of the problem for a plain solver (values of the integer and Boolean constants pinned)"""
+    idx, prog, seed = args
+    import z3
+    import processscheduler as ps
+    import impl
+    out = {'idx': idx, 'error': None, 'status': None}
+    try:
+        r = random.Random(seed * 7907 + idx)
+        lg = r.choice(NO_ARRAY_LOGICS)
+        im = impl.Impl()
+        with warnings.catch_warnings():
+            warnings.simplefilter('ignore')
+            res = im.run(prog, early_solver_kw=dict(max_time=10, logics=lg))
+        if res[0] != 'ok' or im.pb is None or im.early_solver is None:
+            out['status'] = 'rejected'
+            return out
+        out['logics'] = lg
+        solver = im.early_solver
+        with contextlib.redirect_stdout(io.StringIO()), warnings.catch_warnings():
+            warnings.simplefilter('ignore')
+            sol = solver.solve()
+        if not sol:
+            out['status'] = 'nosolution'
+            return out
+        A = list(solver._solver.assertions())
+        m = solver._model
+        sv = z3.Solver()
+        sv.set('timeout', 8000)
+        sv.add(A)
+        for c in impl.consts_in_order(A):
+            if z3.is_int(c) or z3.is_bool(c):
+                sv.add(c == m.eval(c, model_completion=True))
+        rr = sv.check()
+        out['status'] = 'valid' if rr == z3.sat else ('INVALID' if rr == z3.unsat else 'undecided')
+        if rr == z3.unsat:
+            out['detail'] = {'logics': lg, 'levels': {n: (list(b.level), list(b.level_change_times)) for n, b in sol.buffers.items()},
+                             'tasks': {n: (t.start, t.end, t.scheduled) for n, t in sol.tasks.items()}}
+    except Exception:
+        out['error'] = traceback.format_exc()[-1200:]
+    return out
 
 
 def solution_slice(ctx, progs, keep=None):
